@@ -141,6 +141,13 @@ def new_context():
     return ctx
 
 
+def set_current(c):
+    """Make an earlier context current again (atoms memoised in it are found again)."""
+    global ctx
+    ctx = c
+    return ctx
+
+
 def _ctx():
     return ctx
 
